@@ -22,13 +22,13 @@ def sh(cmd, cwd=None, env=None, timeout=1800):
 
 def main():
     prop, wt, name, needs = sys.argv[1], sys.argv[2], sys.argv[3], sys.argv[4]
-    rc, diff = sh("git diff -- ECAgent", cwd=wt)
+    diff = subprocess.run("git diff -- ECAgent", shell=True, cwd=wt, capture_output=True).stdout   # bytes: keep CRLF
     if not diff.strip():
         print("no uncommitted change under ECAgent/ in", wt)
         return 1
     out = os.path.join(VERIF, "seeded", name)
     os.makedirs(out, exist_ok=True)
-    with open(os.path.join(out, "patch.diff"), "w") as f:
+    with open(os.path.join(out, "patch.diff"), "wb") as f:
         f.write(diff)
     for fn in ("demo.py", "NOTES.md"):
         if os.path.exists(os.path.join(wt, fn)):
